@@ -314,7 +314,7 @@ func c18Scenario(c c18Case, outp *[][2]string) *vsched.Scenario {
 func TestVerifC18(t *testing.T) {
 	r := ev.Begin("C18", "messages")
 	defer r.End(t)
-	r.Rule = "messages fed to the real Monitor.Run (real listener, memory metrics, virtual clock): (a) every single event = message shape (RA: M,O x lifetime {0,30s} x prefixes {none, P1, P1 infinite/zero, P1+P2, P1 with host bits, P1/48, wire-patched length byte 200 followed by P2} x unknown option {no,yes}; RS; NS; NA) x sender {fe80::1%eth0, fe80::1, fe80::2%eth0, 2001:db8::1%eth0, ::%eth0} x gap {0, 1.5s}; (b) all sequences of length<=L over a 18-event sub-alphabet (16 messages + a link flap that makes the monitor re-initialise + the wall clock stepped back by 10 min) chosen so that labels collide (same sender with/without zone, same prefix with other lifetimes/flags, lifetime 0 after non-zero, the same RA again later, RS/NS from an RA's sender); (c) every pair of the sub-alphabet with one message reaching the socket at the instant of a link flap (counted iff ReadFrom handed it over), and for 6 of them every goroutine schedule with <=2 deviations; oracle: the eight corerad_monitor_* series equal a map-based model after every message, Run never returns; non-trivial = every case; distinct = distinct sequence"
+	r.Rule = "messages fed to the real Monitor.Run (real listener, memory metrics, virtual clock): (a) every single event = message shape (RA: M,O x lifetime {0,30s} x prefixes {none, P1, P1 infinite/zero, P1+P2, P1 with host bits, P1/48, wire-patched length byte 200 followed by P2} x unknown option {no,yes}; RS; NS; NA) x sender {fe80::1%eth0, fe80::1, fe80::2%eth0, 2001:db8::1%eth0, ::%eth0} x gap {0, 1.5s}; (b) all sequences of length<=L over a 18-event sub-alphabet (16 messages + a link flap that makes the monitor re-initialise + the wall clock stepped back by 10 min) chosen so that labels collide (same sender with/without zone, same prefix with other lifetimes/flags, lifetime 0 after non-zero, the same RA again later, RS/NS from an RA's sender); (d) 80 and 300 distinct senders on one interface followed by RAs from the last and the first; (c) every pair of the sub-alphabet with one message reaching the socket at the instant of a link flap (counted iff ReadFrom handed it over), and for 6 of them every goroutine schedule with <=2 deviations; oracle: the eight corerad_monitor_* series equal a map-based model after every message, Run never returns; non-trivial = every case; distinct = distinct sequence"
 	if r.Replay != nil {
 		var c c18Case
 		if err := json.Unmarshal(r.Replay, &c); err != nil {
@@ -448,6 +448,19 @@ func TestVerifC18(t *testing.T) {
 		r.Count("transitions", st.Transitions)
 	}
 	r.Count("schedules_explored_for_messages_at_a_link_flap", nsched)
+	// Many distinct senders on one interface (more than any table or label-cardinality
+	// bound would plausibly hold: 80 and 300), each counted under its own address, then an
+	// RA from the last one and from the first one.
+	for _, n := range []int{80, 300} {
+		var c c18Case
+		for i := 0; i < n; i++ {
+			typ := []string{"RS", "NS", "NA"}[i%3]
+			c.Seq = append(c.Seq, c18Msg{Type: typ, Sender: fmt.Sprintf("fe80::%x%%eth0", 0x1000+i)})
+		}
+		last, first := ra("M", 30, "p1", fmt.Sprintf("fe80::%x%%eth0", 0x1000+n-1), 0), ra("O", 60, "p1p2", "fe80::1000%eth0", 0)
+		c.Seq = append(c.Seq, last, first)
+		one(c)
+	}
 	// A message, the clock stepped back, another message (for every pair of the alphabet).
 	for _, m1 := range sub {
 		for _, m2 := range sub {
